@@ -37,11 +37,18 @@ def main(argv):
             return 2
         repo = core.Repo(args.repo)
         ctx = report.Ctx(args.prop, args.tier, seed, repo)
-        for fn in props.PROPS[args.prop]:
+        fns = list(props.PROPS[args.prop])
+        if args.tier == "thorough":
+            fns += props.THOROUGH_EXTRA.get(args.prop, [])
+        for fn in fns:
             try:
                 fn(ctx, repo)
             except core.AnalysisError as e:
                 ctx.error(f"{fn.__module__}.{fn.__name__}: {e}")
+        if args.tier == "thorough" and not ctx.unmatched_violations() and os.environ.get("VERIF_NO_SWEEP") != "1":
+            from sa import sweep
+
+            sweep.run(ctx, args.prop, args.repo)
         return ctx.finish()
     except core.AnalysisError as e:
         print(f"ANALYSIS-ERROR property={args.prop} {e}")
